@@ -97,6 +97,26 @@ def make_kexinits(rng, thorough):
                 first_kex_packet_follows=rng.choice([0, 1]), reserved=rng.choice([0, 1, 2 ** 32 - 1])))
         except Exception:  # pylint: disable=broad-except
             continue
+    # name-lists far longer than any implementation sends: 256, 300 and 1000 names (a name-list is bounded by its 32-bit length)
+    for count in (256, 300, 1000):
+        names = ['alg%d@example.com' % i for i in range(count)]
+        for field in ('kex_algorithms', 'encryption_algorithms_client_to_server', 'mac_algorithms_server_to_client',
+                      'compression_algorithms_client_to_server'):
+            kw = dict(kex_algorithms=[list(SshKexAlgorithm)[0]], host_key_algorithms=[list(SshHostKeyAlgorithm)[0]],
+                      encryption_algorithms_client_to_server=[list(SshEncryptionAlgorithm)[0]],
+                      encryption_algorithms_server_to_client=[list(SshEncryptionAlgorithm)[0]],
+                      mac_algorithms_client_to_server=[list(SshMacAlgorithm)[0]], mac_algorithms_server_to_client=[list(SshMacAlgorithm)[0]],
+                      compression_algorithms_client_to_server=[list(SshCompressionAlgorithm)[0]],
+                      compression_algorithms_server_to_client=[list(SshCompressionAlgorithm)[0]],
+                      languages_client_to_server=[], languages_server_to_client=[], cookie=bytearray(range(16)),
+                      first_kex_packet_follows=0, reserved=0)
+            kw[field] = names
+            try:
+                out.append(SshKeyExchangeInit(**kw))
+            except Exception:  # pylint: disable=broad-except
+                continue
+            if count > 256:
+                break
     return out
 
 
